@@ -10,7 +10,7 @@ from . import C05, handler, proxyplugin
 HH = 'proxy/http/handler.py'
 SV = 'proxy/http/proxy/server.py'
 ASSUMPTIONS = ['socket.close() releases the descriptor (kernel tables are not modelled)',
-               'TLS unwrap branch of shutdown not modelled (client socket is a plain socket object)',
+               
                'termination of HttpProtocolHandler._flush is not proved (it depends on the peer reading)']
 
 
@@ -21,6 +21,8 @@ def build(reg):
     G = {'closed_socks': ('seq', 'int'), 'close_hooks': 'int'}
     reg.contract('<env>', 'Socket.close', self_cls='Socket', assumed=True, modifies=[], raises={},
                  ghost_init={'closed_socks': ('seq', 'int')}, ensures=['closed_socks == old(closed_socks) + [self]'])
+    reg.contract('<env>', 'Socket.unwrap', self_cls='Socket', assumed=True, modifies=[], result=('opaque', 'Socket'),
+                 raises={'OSError': []}, note='TLS close_notify; may fail when the peer is gone')
     reg.contract('<env>', 'Socket.shutdown', params={'how': 'int'}, self_cls='Socket', assumed=True, modifies=[],
                  raises={'OSError': []}, note='peer may already be gone: ENOTCONN etc.')
     c = reg.contracts['ProtoPlugin.on_client_connection_close']
